@@ -11,7 +11,7 @@ from ..common import base_programs, exc_name, THOROUGH
 from ..model import Model, NotApplicable, CapHit
 from ..refparser import parse_program, NotPolynomial
 from ..poly import Poly, ZERO, ONE, parse_poly
-from ..pool import cpu_limit, CpuTimeout
+from ..pool import cpu_limit, CpuTimeout, tainted
 from .. import gen
 
 ID = "C03"
@@ -98,6 +98,9 @@ def run_case(case):
         irvars = irp.assigned()
         done_eq = set()
         for goal in case["input"]["goals"]:
+            if tainted():
+                stats["refusals"]["skipped_after_timeout"] = stats["refusals"].get("skipped_after_timeout", 0) + 1
+                continue
             try:
                 with cpu_limit(20 if not THOROUGH else 60):
                     recs = rb.get_recurrences(sympify(goal))
